@@ -704,6 +704,9 @@ impl World {
         let old_index = loc.index;
         let source_arch = &self.archetypes.archetypes[loc.archetype as usize];
 
+        // A repeated type would move the same component out twice
+        T::with_static_type_info(Archetype::assert_type_info);
+
         // Move out of the source archetype, or bail out if a component is missing
         let bundle = unsafe {
             T::get(|ty| source_arch.get_dynamic(ty.id(), ty.layout().size(), old_index))?
@@ -785,6 +788,9 @@ impl World {
 
         // Move out of the source archetype, or bail out if a component is missing
         let source_arch = &self.archetypes.archetypes[loc.archetype as usize];
+
+        // A repeated type would move the same component out twice
+        S::with_static_type_info(Archetype::assert_type_info);
 
         let bundle = unsafe {
             S::get(|ty| source_arch.get_dynamic(ty.id(), ty.layout().size(), loc.index))?
